@@ -54,6 +54,10 @@ HISTS = {
     "T-only": [("T", "new")],
     "cplx-span": [("N", "cplxconst"), ("N", "conjprev"), ("N", "realsum")],
     "x0": [("N", "new"), ("N", "newx0"), ("T", "newx0"), ("N", "blocknewx0")],
+    # a block [v, f v, w]: the column after the dependent one is new and must be stored (reuse afterwards)
+    "block-dep-indep": [("N", "blockdepindep"), ("N", "repeat")],
+    # another wrapper object (another matrix) is set up and used in between: wrappers do not share their databases
+    "two-wrappers": [("N", "new"), ("other", None), ("N", "repeat"), ("T", "new"), ("other", None), ("T", "repeat")],
 }
 
 
@@ -79,6 +83,8 @@ def items(tier):
                 if hname in ("cplxconst-rhs", "cplx-span", "H-only", "T-only"):
                     continue
                 if hname == "x0" and (mclass != "general" and q or zp and q):
+                    continue
+                if hname in ("block-dep-indep", "two-wrappers") and (mclass not in ("general", "symmetric") or (q and zp)):
                     continue
                 if hname == "block-mixed" and q and (mclass != "general" or len(zp) > 1):
                     continue
@@ -312,7 +318,22 @@ def scenario(V, P, cfg):
     obs = {}
     solved = []          # (trans, b, xpre) of the current matrix
     nupd = 1
+    w2 = None
     for k, (trans, kind) in enumerate(hist):
+        if trans == "other":
+            if w2 is None:
+                w2 = LDAWrapper(ContractSolver() if V.symbolic else _CountingAuto(), tol=tolv)
+            A2 = build_matrix(V, cfg, "B")
+            w2.update(A2)
+            x2s = V.cplxs("xo%d" % k, n) if cplxA else V.reals("xo%d" % k, n)
+            b2 = A2 @ x2s
+            if V.symbolic:
+                b2, x2s = wrap(np.asarray(b2, dtype=object)), wrap(np.asarray(x2s, dtype=object))
+                oracles.add_candidate(x2s)
+            xo = w2.solve(b2)
+            if P is not None:
+                P.arrays_eq("step%d[other-wrapper]:A2 x==b2" % k, np.asarray(A2) @ np.asarray(xo), np.asarray(b2), kind="solves-system")
+            continue
         if trans == "update":
             A = build_matrix(V, cfg, "B")
             w.update(A)
@@ -386,6 +407,13 @@ def scenario(V, P, cfg):
             xs = np.stack([f * np.asarray(same[-1][2]), np.asarray(x2)], axis=1)
             b = M @ xs
             kind_eff = "blockmixed"
+        elif kind == "blockdepindep":
+            x1 = V.cplxs("x%d" % k, n) if cplxA else V.reals("x%d" % k, n)
+            x3 = V.cplxs("y%d" % k, n) if cplxA else V.reals("y%d" % k, n)
+            f = V.real("f%d" % k, nonzero=True, default=2.0)
+            xs = np.stack([np.asarray(x1), f * np.asarray(x1), np.asarray(x3)], axis=1)
+            b = M @ xs
+            kind_eff = "blockdepindep"
         elif kind == "block2":
             x1 = V.cplxs("x%d" % k, n) if cplxA else V.reals("x%d" % k, n)
             f = V.real("f%d" % k, nonzero=True, default=2.0)
@@ -429,6 +457,8 @@ def scenario(V, P, cfg):
                 P.holds(lab + ":one-inner-column", called <= 1, kind="reuse")
             if kind_eff == "block2" and tol == 0:
                 P.holds(lab + ":one-inner-column", called <= 1, kind="reuse")
+            if kind_eff == "blockdepindep" and tol == 0:
+                P.holds(lab + ":two-inner-columns", called <= 2, kind="reuse")
             if kind_eff == "zero":
                 P.holds(lab + ":zero-rhs-no-solve", called == 0, kind="reuse")
     return obs
